@@ -306,6 +306,22 @@ def emit_ties(ctx, kind, payload, r, log, dis):
         rng.shuffle(sh)
         lines.append("duidorder " + " ".join(str(o.duid) for o, n in sh))
         checks.append(("specials", [n for o, n in sh], blocks))
+    # (a') default-assignment lines of multi-target always blocks: sorted(g[0], key=get_name)  ~  declOrder
+    comb = text[text.index("// Combinatorial Logic"):text.index("// Synchronous Logic")]
+    for blk in re.findall(r"^always @\(\*\) begin\n(.*?)^end$", comb, flags=re.S | re.M):
+        blines = blk.splitlines()
+        lhs = [m.group(1) for m in (re.match(r"^\s+([A-Za-z_]\w*)(?:\[[^\]]*\])?\s*<=", l) for l in blines) if m]
+        targets = sorted(set(lhs))
+        if len(targets) < 2 or not all(_tok_ok(n) for n in targets):
+            continue
+        defaults = [m.group(1) for m in (re.match(r"^    ([A-Za-z_]\w*) <= ", l) for l in blines[:len(targets)]) if m]
+        sh = targets[:]
+        rng.shuffle(sh)
+        lines.append("declorder " + " ".join("=" + n for n in sh))
+        checks.append(("default-assignment lines of a multi-target always block", sh, defaults))
+        if defaults != sorted(defaults) or set(defaults) != set(targets):
+            dis.append({"kind": "monitor", "case": "convert-text", "payload": pl,
+                        "oracle": ["default-assignment lines of an always block are not its targets in sorted order", defaults, targets]})
     # (c) IO naming step
     pre = [(io, before) for io, before in getattr(r, "c02_ios_pre", []) if io.backtrace and
            all(_tok_ok(n) or n == "" for n, k in io.backtrace) and ":" not in "".join(n for n, k in io.backtrace) and
@@ -484,9 +500,13 @@ def nscd_differential(ctx, dis, n):
     ctx.cov.add_cases("ClockDomain(name).clk/.rst name_override vs cdClkBase/cdRstBase", len(names), len(names), True, mode="D")
 
 
+def tie_order_fixed(ctx):
+    return any(e.get("id") == "C02-tie-order" and e.get("status") == "fixed" for e in ctx.known)
+
+
 def emission_corpus_start(ctx):
     rng = random.Random(ctx.rng.randrange(1 << 30))
-    corpus = E.emission_corpus(rng, ctx.tier == "quick")
+    corpus = E.emission_corpus(rng, ctx.tier == "quick") + E.tie_corpus(rng, ctx.tier == "quick")
     return corpus, E.start_corpus_procs(corpus)
 
 
@@ -499,6 +519,26 @@ def emission_corpus_finish(ctx, dis, started):
     for label, src, s0, s1, diff in diffs:
         dis.append({"kind": "monitor", "case": "reproducibility", "payload": {"emit_src": src, "design": label, "hashseeds": [s0, s1]},
                     "oracle": ["text of the emission-corpus design %s differs between PYTHONHASHSEED=%s and %s" % (label, s0, s1)] + diff})
+    # DUID-offset dimension: every design rebuilt in the same interpreter after k extra objects
+    odiffs = E.offset_differences(corpus, res)
+    fixed = tie_order_fixed(ctx)
+    ncand = 0
+    for label, src, hs, k, diff in odiffs:
+        if label.startswith(E.CANDIDATE_LABELS) and not fixed:
+            ncand += 1
+            continue
+        dis.append({"kind": "monitor", "case": "reproducibility", "payload": {"emit_src": src, "design": label, "hashseeds": [hs], "duid_offset": k},
+                    "oracle": ["text of the emission-corpus design %s differs when the same design is built again in the same interpreter "
+                               "(PYTHONHASHSEED=%s) after %s extra objects (DUID offset)" % (label, hs, k)] + diff})
+    nreb = sum(len(x) for hs in (res.later or {}) for x in res.later[hs])
+    ctx.cov.add_cases("emission corpus, DUID-offset dimension: every design rebuilt in the same fresh interpreter after k in %s extra "
+                      "objects gives the first build's text (validated)" % (list(E.DUID_OFFSETS),), nreb, nreb - len(odiffs), False, mode="repro")
+    if ncand:
+        ctx.cov.count("emission corpus: DUID-offset differences inside the candidate region C02-tie-order (not a violation yet)", ncand)
+        ctx.cov.notes.append("candidate C02-tie-order (reported, not listed): on the unchanged tree the text depends on the absolute DUIDs "
+                             "(a) when >= 2 signals among the IOs, or among the other signals, share a base name (which one is issued x / x_1 "
+                             "follows the iteration order of a set of Signals) and (b) with regular_comb=False when a comb statement has >= 2 "
+                             "targets (order of the always blocks); %d rebuilds of the tie/simcomb corpus designs differed" % ncand)
     good = [hs for hs in res if not isinstance(res[hs], str)]
     nattr = sum(E.attr_line_count(t) for t in res[good[0]]) if good else 0
     ctx.cov.add_cases("emission corpus (multi-attribute signals/ports/memories/instances, vendor attr_translate tables, real platforms "
@@ -770,9 +810,6 @@ def correspond(ctx):
     ctx.cov.notes.append("note (outside the property statement, no probe): SignalNamespace.get_name(ClockSignal/ResetSignal) raises "
                          "AttributeError on the namespace convert() returns (ns.clock_domains is a _ClockDomainList without .get); the "
                          "resolution is modelled and tied with dict-typed clock_domains")
-    ctx.cov.notes.append("note (outside the property statement, no probe): among objects with equal base names the _n suffixes follow "
-                         "the first-request order = iteration order of the Signal sets (a function of the absolute DUIDs); the same design "
-                         "in the same process context gives the same DUIDs and the same text")
     attr_differential(ctx, dis, 1500 if quick else 15000)
     nscd_differential(ctx, dis, 600 if quick else 6000)
     keyword_table_check(ctx, dis)
@@ -1265,10 +1302,13 @@ def replay(ctx, payload):
         return 1 if bad else 0
     if f.get("case") == "reproducibility" and "emit_src" in (f.get("input") or {}):
         corpus = [(f["input"].get("design", "design"), f["input"]["emit_src"])]
-        errs, diffs = E.corpus_differences(corpus, E.collect(E.start_corpus_procs(corpus)))
-        print("replay: emission-corpus design under PYTHONHASHSEED=%s:" % (E.HASHSEEDS,),
-              json.dumps(diffs[0][4])[:1500] if diffs else (json.dumps(errs)[:800] if errs else "one text -> passes"))
-        return 1 if (diffs or errs) else 0
+        res = E.collect(E.start_corpus_procs(corpus))
+        errs, diffs = E.corpus_differences(corpus, res)
+        odiffs = E.offset_differences(corpus, res)
+        print("replay: emission-corpus design under PYTHONHASHSEED=%s and DUID offsets %s:" % (E.HASHSEEDS, E.DUID_OFFSETS),
+              json.dumps(diffs[0][4])[:1500] if diffs else (json.dumps(odiffs[0][3:])[:1500] if odiffs else
+                                                            (json.dumps(errs)[:800] if errs else "one text -> passes")))
+        return 1 if (diffs or odiffs or errs) else 0
     if f.get("case") == "reproducibility" and "repro_src" in (f.get("input") or {}):
         r = None
         for k in range(6):
